@@ -195,7 +195,7 @@ theorem length_insertSep : ∀ {ts ts' : List TokInfo}, insertSepAux ts = some t
 theorem step_KErr (cfg : Cfg) (o : Op) (L : Lexer) (h : KErr L) : KErr (step cfg o L).2 := by
   cases o <;> simp only [step]
   case rest | lastTok | lastDefaultTok | secondLastDefaultTok | hasCheckpoint | nesting | modeDepth | hasMark
-     | litIsEmpty => exact h
+     | litIsEmpty | loopProbe => exact h
   case pendingText => exact h.pendingTextFrom _ _ _
   case pendingTextToMark => exact h.pendingTextFrom _ _ _
   case pendingTextWithPrev => exact h.pendingTextFrom _ _ _
@@ -262,7 +262,6 @@ theorem step_KErr (cfg : Cfg) (o : Op) (L : Lexer) (h : KErr L) : KErr (step cfg
     split
     · exact h'.frame rfl rfl rfl rfl
     · exact (h'.addStringLiteralFromSrc (cfg := cfg) L.lit.lastEnd (some (L.curByte - back))).frame rfl rfl rfl rfl
-  case loopCheck => split <;> first | exact h | exact h.frame rfl rfl rfl rfl
   case emitEofAtCursor => exact (h.lastLineOrAdd (cfg := cfg)).bufAddToken _
   case dassert c m => exact h.frame rfl rfl rfl rfl
   case panic m => exact h.frame rfl rfl rfl rfl
